@@ -684,6 +684,9 @@ impl SyncWorld {
                 Clock::advance(1);
                 let st = pull(&self.peers[*a], &self.peers[*b], &PullOptions::default()).await;
                 transferred_total += st.rows();
+                if std::env::var("DV_TRACE").is_ok() {
+                    println!("   round {} pull {}<-{}: rows {} errors {:?} queries {:?}", round, a, b, st.rows(), st.sync_errors, st.queries);
+                }
             }
             let after = self.content().await;
             if before == after {
